@@ -205,6 +205,58 @@ func (c *Ctx) sideGoroutineErrors(want func(key string) bool) {
 				if okAll {
 					c.ok(key, g.Pos(), "every return after the go statement is behind a test of %s or on an error path", name)
 				}
+				// the producing side: whenever the work in the goroutine fails, the shared variable ends
+				// up non-nil - no "only if the context is still alive" filter (the consumer relies on it
+				// also, and especially, for interruptions)
+				fv := cl.FreeVars[k]
+				var producers []*ssa.Call
+				for _, st := range storesTo(A) {
+					if st.Parent() != cl {
+						continue
+					}
+					for _, l := range leaves(st.Val) {
+						if call, _ := callOf(l); call != nil && call.Parent() == cl && errResultIndex(call) >= 0 {
+							producers = append(producers, call)
+						}
+					}
+				}
+				if len(producers) > 0 {
+					isProducer := func(call *ssa.Call) bool {
+						for _, p := range producers {
+							if p == call {
+								return true
+							}
+						}
+						return false
+					}
+					var lost []string
+					hp := &Hooks{MaxVisits: 2}
+					hp.Fork = func(st *State, call *ssa.Call) []map[int]Val {
+						if !isProducer(call) {
+							return nil
+						}
+						ei := errResultIndex(call)
+						return []map[int]Val{{ei: {N: NNil, Class: ClsNil}}, {ei: {N: NNon, Sym: "failed:" + callee(call)}}}
+					}
+					hp.Return = func(st *State, ret *ssa.Return, _ []Val) {
+						failed := false
+						for _, v := range st.V {
+							if strings.HasPrefix(v.Sym, "failed:") {
+								failed = true
+							}
+						}
+						if failed && st.load(fv).N != NNon {
+							lost = append(lost, fmt.Sprintf("the goroutine can end at %s after its work failed without %s being set (trail %s)", c.pos(ret.Pos()), name, strings.Join(st.Trail, ">")))
+						}
+					}
+					Explore(cl, cl.Blocks[0], 0, nil, NewState(), hp)
+					c.paths += hp.Paths
+					if len(lost) > 0 {
+						c.bad(key+":stored", g.Pos(), "%s: the failure (an interruption included) is invisible to the code that waits for the goroutine", lost[0])
+					} else {
+						c.ok(key+":stored", g.Pos(), "a failure of the goroutine's work always ends up in %s", name)
+					}
+				}
 			}
 		}
 	}
